@@ -496,6 +496,32 @@ func c01Transformers() []transformer {
 			a.root.Tag = pick(a.r, []string{"LogoutResponse", "ArtifactResponse", "AuthnRequest", "response"})
 			return true
 		}},
+		{"inject-validated-flag", func(a *atk) bool {
+			// attacker-supplied look-alikes of the library's own trust indicator, as attribute and as child element
+			targets := append([]*etree.Element{a.root}, a.assertions()...)
+			if a.r.IntN(2) == 0 {
+				targets = append(targets, a.evil(a.r.IntN(2), 0, nil))
+				a.root.AddChild(targets[len(targets)-1])
+			}
+			for _, t := range targets {
+				switch a.r.IntN(4) {
+				case 0:
+					t.CreateAttr("SignatureValidated", "true")
+				case 1:
+					t.CreateAttr("SignatureValidated", "1")
+				case 2:
+					c := etree.NewElement("SignatureValidated")
+					c.SetText("true")
+					t.InsertChildAt(0, c)
+				case 3:
+					c := etree.NewElement("samlp:SignatureValidated")
+					c.CreateAttr("xmlns:samlp", sim.NSP)
+					c.SetText("1")
+					t.AddChild(c)
+				}
+			}
+			return true
+		}},
 		{"unsigned-evil-only", func(a *atk) bool {
 			for _, c := range a.root.ChildElements() {
 				if c.Tag == "Assertion" || c.Tag == "EncryptedAssertion" || (c.Tag == "Signature" && c.NamespaceURI() == sim.NSDS) {
